@@ -285,6 +285,8 @@ void Runner::op_start(Thread *t, int idx, const Op &op, OpRes &res) {
   int fcodes[4] = { s.in.file, s.out.file, s.err.file, s.file };
   for (int fc : fcodes) if (fc == 2) natural.insert(EBADF);
   if (s.input_size > 0 && (uint64_t) s.input_size > k->w.pipe_cap) { natural.insert(EAGAIN); probe(P_input_gt_cap); }
+  // the caller handed over one of its own descriptors 0-2 (as handle or FILE) that is not open: an unusable redirect target
+  for (int i = 0; i < 3; i++) if (cx.src_low[i] >= 0 && cx.parent_ofd[cx.src_low[i]] < 0) natural.insert(EBADF);
   if (!s.fork || true) { if (k->caller->rlim_cur - 1 > 1024 * 1024) natural.insert(EMFILE); }
   // deep working directory: the absolute program path can exceed PATH_MAX
   bool beyond_pathmax = false;
